@@ -170,20 +170,46 @@ def fitsB (start : Nat) : Nat → List Seg → Bool
     simply ends the list) -/
 def charIndicesFrom : Nat → List Nat → List (Nat × Nat)
   | _, [] => []
-  | pos, [b0] => if b0 < 128 then [(pos, b0)] else []
-  | pos, [b0, b1] =>
-    if b0 < 128 then (pos, b0) :: charIndicesFrom (pos + 1) [b1]
-    else if b0 < 224 then [(pos, (b0 % 32) * 64 + b1 % 64)] else []
-  | pos, [b0, b1, b2] =>
-    if b0 < 128 then (pos, b0) :: charIndicesFrom (pos + 1) [b1, b2]
-    else if b0 < 224 then (pos, (b0 % 32) * 64 + b1 % 64) :: charIndicesFrom (pos + 2) [b2]
-    else if b0 < 240 then [(pos, ((b0 % 16) * 64 + b1 % 64) * 64 + b2 % 64)] else []
-  | pos, b0 :: b1 :: b2 :: b3 :: rest =>
-    if b0 < 128 then (pos, b0) :: charIndicesFrom (pos + 1) (b1 :: b2 :: b3 :: rest)
-    else if b0 < 224 then (pos, (b0 % 32) * 64 + b1 % 64) :: charIndicesFrom (pos + 2) (b2 :: b3 :: rest)
+  | pos, b0 :: rest =>
+    if b0 < 128 then (pos, b0) :: charIndicesFrom (pos + 1) rest
+    else if b0 < 224 then
+      match rest with
+      | b1 :: r => (pos, (b0 % 32) * 64 + b1 % 64) :: charIndicesFrom (pos + 2) r
+      | [] => []
     else if b0 < 240 then
-      (pos, ((b0 % 16) * 64 + b1 % 64) * 64 + b2 % 64) :: charIndicesFrom (pos + 3) (b3 :: rest)
-    else (pos, (((b0 % 8) * 64 + b1 % 64) * 64 + b2 % 64) * 64 + b3 % 64) :: charIndicesFrom (pos + 4) rest
+      match rest with
+      | b1 :: b2 :: r => (pos, ((b0 % 16) * 64 + b1 % 64) * 64 + b2 % 64) :: charIndicesFrom (pos + 3) r
+      | _ => []
+    else
+      match rest with
+      | b1 :: b2 :: b3 :: r =>
+        (pos, (((b0 % 8) * 64 + b1 % 64) * 64 + b2 % 64) * 64 + b3 % 64) :: charIndicesFrom (pos + 4) r
+      | _ => []
+
+/-- the part of UTF-8 validity the span theorems need: a lead byte is followed by the right
+    number of continuation bytes, and no ASCII character is encoded in more than one byte.
+    (Every Rust `&str` satisfies it.) -/
+def wfUtf8 : List Nat → Bool
+  | [] => true
+  | b0 :: rest =>
+    if b0 < 128 then wfUtf8 rest
+    else if b0 < 192 then false
+    else if b0 < 224 then
+      match rest with
+      | b1 :: r => isCont b1 && decide (128 ≤ (b0 % 32) * 64 + b1 % 64) && wfUtf8 r
+      | [] => false
+    else if b0 < 240 then
+      match rest with
+      | b1 :: b2 :: r =>
+        isCont b1 && isCont b2 && decide (128 ≤ ((b0 % 16) * 64 + b1 % 64) * 64 + b2 % 64) && wfUtf8 r
+      | _ => false
+    else if b0 < 248 then
+      match rest with
+      | b1 :: b2 :: b3 :: r =>
+        isCont b1 && isCont b2 && isCont b3 &&
+          decide (128 ≤ (((b0 % 8) * 64 + b1 % 64) * 64 + b2 % 64) * 64 + b3 % 64) && wfUtf8 r
+      | _ => false
+    else false
 
 def charIndices (src : List Nat) : List (Nat × Nat) := charIndicesFrom 0 src
 
@@ -218,6 +244,12 @@ def LexErr.label : LexErr → Span
   | .literal s => ⟨s, s + 1⟩
   | .escapeChar s _ => ⟨s, s + 1⟩
   | .unicodeEscape s e => ⟨s, e⟩
+
+/-- finding class D_lexer_char_span: an `EscapeChar` error whose offending character is not
+    ASCII; its one-byte-wide label ends inside that character. -/
+def LexErr.splitsChar : LexErr → Bool
+  | .escapeChar _ (some c) => decide (128 ≤ c)
+  | _ => false
 
 /-- `Error::offset_by` -/
 def LexErr.offsetBy (o : Nat) : LexErr → LexErr
